@@ -254,6 +254,9 @@ func TestVerifC18HTTP(t *testing.T) {
 			c18HTTP(t, c, res)
 		case "cached":
 			c18Cached(c, res)
+		case "rhttp":
+			// relay phase on scripted conns (c18_relay_http_test.go)
+			c18RelayHTTP(t, raw, res)
 		default:
 			t.Fatalf("unknown kind %q", c.K)
 		}
